@@ -34,3 +34,11 @@ package influxql
 //@     frame nothing
 //@   call append with stack
 //@     requires [left_assoc] pr < po
+
+// Operator precedence used by the hand-written parser and by everything that rebuilds trees: AND binds tighter
+// than OR, comparisons tighter than both (the yacc grammar must agree - its tables are generated and outside
+// these contracts; see /verif/replays/C12_and_or_precedence_test.go.txt).
+//@ func Token.Precedence
+//@   ensures [and_above_or] (tok == OR ==> result == 1) && (tok == AND ==> result == 2) && (tok == EQ ==> result == 3)
+//@   ensures [range] 0 <= result && result <= 6
+//@   assigns nothing
